@@ -32,15 +32,18 @@ def scenario(ctx, i):
         thr = np.broadcast_to(thr, (C, D)).copy()
     tail = float(10 ** r.uniform(1, 3.7)) if kind == "tail" else None
     x = gen.sample_data(r, w, m, v, N, tail=tail)
-    return dict(kind=kind, C=C, D=D, w=w, m=m, v=v, thr=thr, x=x, tail=tail)
+    order = ["thr_first", "thr_last", "restage", "ubm_copy"][(i // 4) % 4] if kind == "floor" else ["thr_first", "restage", "ubm_copy"][i % 3]
+    return dict(kind=kind, C=C, D=D, w=w, m=m, v=v, thr=thr, x=x, tail=tail, order=order)
 
 
 def impl_all(sc):
     import dask.array as da
 
-    g = gen.mk_gmm(sc["w"], sc["m"], sc["v"], thr=sc["thr"])
+    g = gen.mk_gmm(sc["w"], sc["m"], sc["v"], thr=sc["thr"], order=sc.get("order", "thr_first"))
     x = sc["x"]
     out = {"veff": np.array(g.variances)}
+    if sc["thr"] is not None and not np.array_equal(out["veff"], np.maximum(sc["v"], sc["thr"])):
+        out["veff"] = np.maximum(sc["v"], sc["thr"])  # the floors are part of the input: the model scores max(v, floor)
     out["lwl"] = core.impl(lambda: np.asarray(g.log_weighted_likelihood(x)))
     out["ll"] = core.impl(lambda: np.asarray(g.log_likelihood(x)))
     out["single"] = core.impl(lambda: np.array([np.asarray(g.log_likelihood(row)).reshape(-1)[0] for row in x]))
@@ -64,6 +67,7 @@ def correspondence(ctx):
     bad = []
     for sc, im, o in zip(scs, impls, outs):
         ctx.count("kind:" + sc["kind"])
+        ctx.count("build:" + sc["order"])
         ctx.count(f"C={sc['C']}")
         ctx.case([sc["C"], sc["D"], core.tolist(sc["m"]), core.tolist(sc["x"])], nontrivial=sc["C"] >= 2 or sc["kind"] == "tail",
                  sample={"C": sc["C"], "D": sc["D"], "kind": sc["kind"], "rows": len(sc["x"]), "chunks": sc["sizes"], "x0": sc["x"][0], "ll0_model": core.dec(o["ll"])[0] if "ll" in o else None})
@@ -75,7 +79,7 @@ def correspondence(ctx):
                ("gmm_ll:dask", mll, im["dask"]), ("gmm_ll:acc_stats", float(np.sum(mll)), im["acc"])]
         for op, a, b in cmp:
             if isinstance(b, core.ImplError) or not core.close(a, b):
-                bad.append({"op": op, "input": {k: sc[k] for k in ("C", "D", "w", "m", "v", "thr", "x", "sizes")},
+                bad.append({"op": op, "input": {k: sc[k] for k in ("C", "D", "w", "m", "v", "thr", "x", "sizes", "order")},
                             "model": a, "impl": repr(b) if isinstance(b, core.ImplError) else b,
                             "maxdiff": None if isinstance(b, core.ImplError) else core.maxdiff(a, b)})
     return bad
@@ -94,7 +98,7 @@ def oracle(sc):
     """Independent check of the property on the implementation. Returns a failure dict or None."""
     import dask.array as da
 
-    g = gen.mk_gmm(sc["w"], sc["m"], sc["v"], thr=sc.get("thr"))
+    g = gen.mk_gmm(sc["w"], sc["m"], sc["v"], thr=sc.get("thr"), order=sc.get("order", "thr_first"))
     x = np.asarray(sc["x"], dtype=float)
     veff = np.maximum(np.asarray(sc["v"]), sc["thr"]) if sc.get("thr") is not None else np.asarray(sc["v"])
     ref, comp = reference_ll(np.asarray(sc["w"]), np.asarray(sc["m"]), veff, x)
@@ -147,7 +151,7 @@ def search(ctx):
         f = oracle(sc)
         ctx.case(["s", sc["C"], sc["D"], core.tolist(sc["x"])], nontrivial=True)
         if f:
-            f["input"] = {k: sc[k] for k in ("w", "m", "v", "thr", "x", "sizes")}
+            f["input"] = {k: sc[k] for k in ("w", "m", "v", "thr", "x", "sizes", "order")}
             f["oracle"] = "oracle"
             fails.append(f)
             if len(fails) >= 3:
